@@ -378,8 +378,29 @@ def run(pm, ctx):
               'block(): opening line, indented body, closing line', blk.loc,
               msg='block() no longer brackets an indented body', key='C18-R4|%s' % blk.qualname)
     mi = pm.func(B + '.Backend.make_indent')
-    rets = sorted(unparse(r.value) for r in own_nodes(mi.node) if isinstance(r, ast.Return))
-    ctx.check('C18-R4', rets == ["' ' * self.cur_indent", "'\\t' * self.cur_indent"],
+    # the indentation text is (' ' | '\t') * self.cur_indent, the tab chosen exactly under
+    # self.tabs_for_indents -- wherever in the function the product is formed (returned
+    # directly, through a local or through a correctly keyed table)
+    from ..pathcond import ifexp_leaves
+    pim = path_info(mi.node)
+    chars, counts_ok = {}, True
+    for n in own_nodes(mi.node):
+        if isinstance(n, ast.BinOp) and isinstance(n.op, ast.Mult):
+            sides = [n.left, n.right]
+            strs = [x for x in sides if any(isinstance(l, ast.Constant) and isinstance(l.value, str)
+                                            for l in ifexp_leaves(x))]
+            other = [x for x in sides if x not in strs]
+            if len(strs) != 1 or len(other) != 1 or unparse(other[0]) != 'self.cur_indent':
+                counts_ok = False
+                continue
+            for leaf in ifexp_leaves(strs[0]):
+                if not (isinstance(leaf, ast.Constant) and isinstance(leaf.value, str)):
+                    counts_ok = False
+                    continue
+                pol = [pl for e, pl in pim.at(leaf) if unparse(e) == 'self.tabs_for_indents']
+                chars.setdefault(leaf.value, set()).update(pol or [None])
+    rets = sorted('%r under tabs_for_indents=%s' % (c, sorted(map(str, p))) for c, p in chars.items())
+    ctx.check('C18-R4', counts_ok and chars == {' ': {False}, '\t': {True}},
               'make_indent renders cur_indent in spaces or tabs', mi.loc,
               msg='make_indent renders %s' % rets, key='C18-R4|%s' % mi.qualname)
     gml = pm.func(B + '.CodeBackend.generate_multiline_list')
@@ -397,6 +418,10 @@ def run(pm, ctx):
     run_decisions(pm, ctx, 'C18-RD', OWN['C18'])
     from .. import exprdrift
     exprdrift.run(pm, ctx, 'C18-RE', OWN['C18'])
+    from ..conddrift import run_calls
+    run_calls(pm, ctx, 'C18-RC', OWN['C18'])
+    from .. import memo
+    memo.run(pm, ctx, 'C18-MK', OWN['C18'])
 
 
 def _check_sink(pm, ctx, f, call, d, kind):
